@@ -5,7 +5,9 @@
 //
 // Ops (one per line):
 //
-//	reset <t|o> <hb> <wc>                                   new server: token|oidc(stub), scope bits
+//	reset <t|o> <hb> <wc> [<token> [<mux> [<hbto>]]]        new server: token|oidc(stub), scope bits; t: the configured token
+//	                                                        (0 … 200 bytes, any bytes), transport.tcpMux (default on) and
+//	                                                        transport.heartbeatTimeout in seconds (default 90)
 //	login <cid> <tr> <rid> <ts> <key> <exp> <aap> <pool>    first message Login on a new connection
 //	work  <cid> <tr> <ridref> <ts> <key> <exp>              first message NewWorkConn; ridref = xHEX | @cid
 //	visit <cid> <tr> <ridref> <name>                        first message NewVisitorConn (bad sign key)
@@ -13,6 +15,14 @@
 //	raw   <hexbytes>                                        garbage on the bare tcp port
 //	ping  <cid> <ts> <key> <exp>                            Ping on an established control connection
 //	nproxy <cid> <name>                                     NewProxy (stcp) on an established control connection
+//	cproxy <cid> <name>                                     CloseProxy on an established control connection (no reply: a NewProxy of
+//	                                                        an unsupported type follows and ITS error reply is awaited)
+//	wait <ms>                                               let real time pass
+//	alive <cid> <hint>                                      is the session of the login on <cid> still in the table: alive | dead
+//	                                                        (hint = what the generator expects: with "dead" the harness waits up
+//	                                                        to 600 ms for the session to go)
+//	authkey <token> <ts> <exp>                              util.GetAuthKey(token, ts) itself
+//	authkey2 <tokenA> <tokenB> <ts>                         util.GetAuthKey of two tokens for one timestamp: "<keyA>:<keyB>"
 //	tproxy <cid> <name>                                     NewProxy (tcp, remote port 0) on an established control connection
 //	uconn <name>                                            a user connection to the port of tcp proxy <name>: frps hands it to a
 //	                                                        pooled work connection; result e1:<cid of that work connection> when
@@ -21,8 +31,12 @@
 //	dump                                                    the server's session table (verif hook)
 //
 // <exp> is md5(token ++ decimal(ts)) computed HERE with crypto/md5 (not with frp's util.GetAuthKey).
-// <tr> = tcp | tls | ws | kcp | quic (streams of ONE underlying connection per transport) | tcpn (a NEW tcp connection
-// and yamux session for this one attempt) | int (the internal listener).
+// <tr> = tcp | tls | ws | wst (websocket with TLS inside) | kcp | quic (streams of ONE underlying connection per transport;
+// with tcpMux off a connection of its own per attempt) | tcpn (a NEW tcp connection and yamux session for this one
+// attempt) | int (the internal listener).
+//
+// Every result gets the suffix "!lp" when, while the operation ran, Control.lastPing of some session moved without a
+// heartbeat on its control connection accounting for it (doPing counts those).
 package main
 
 import (
@@ -49,6 +63,7 @@ import (
 	v1 "github.com/fatedier/frp/pkg/config/v1"
 	"github.com/fatedier/frp/pkg/msg"
 	netpkg "github.com/fatedier/frp/pkg/util/net"
+	"github.com/fatedier/frp/pkg/util/util"
 	"github.com/fatedier/frp/pkg/util/version"
 	"github.com/fatedier/frp/server"
 )
@@ -70,7 +85,7 @@ func peerTimedOut() {
 	}
 }
 
-var peerTransports = []string{"tcp", "tls", "ws", "kcp", "quic"}
+var peerTransports = []string{"tcp", "tls", "ws", "wst", "kcp", "quic"}
 
 type peerConn struct {
 	c           net.Conn
@@ -119,6 +134,8 @@ type peerState struct {
 	owner      map[string]string // run id -> cid of the last successful login
 	lastPing   map[string]int64
 	lp         map[string]int
+	legit      map[string]int // moves of lastPing that a heartbeat on the session's control connection accounts for
+	noMux      bool           // transport.tcpMux = false on both sides
 	transports []string
 	tports     map[string]int // tcp proxy name -> remote port frps allocated
 	toks       map[string]string // O / C episodes: minted raw tokens by id
@@ -184,13 +201,24 @@ func (st *peerState) start(method string, hb, wc bool, extra ...string) {
 		}
 		peerIdP().set("k1", clock)
 	}
+	token, noMux, hbTimeout := peerToken, false, int64(90)
+	if method == "t" && len(extra) > 0 {
+		token = unhx(extra[0])
+		noMux = len(extra) > 1 && extra[1] == "0"
+		if len(extra) > 2 {
+			hbTimeout = int64(atoi(extra[2]))
+		}
+	}
 	var lastErr error
 	for attempt := 0; attempt < 5; attempt++ {
 		cfg := &v1.ServerConfig{}
 		cfg.BindAddr = "127.0.0.1"
 		cfg.BindPort, cfg.KCPBindPort, cfg.QUICBindPort = peerFreePorts()
 		cfg.Auth.Method = v1.AuthMethodToken
-		cfg.Auth.Token = peerToken
+		cfg.Auth.Token = token
+		if noMux {
+			cfg.Transport.TCPMux = lo.ToPtr(false)
+		}
 		if method == "o" || method == "O" || method == "C" {
 			cfg.Auth.Token = ""
 		}
@@ -214,7 +242,7 @@ func (st *peerState) start(method string, hb, wc bool, extra ...string) {
 		if wc {
 			cfg.Auth.AdditionalScopes = append(cfg.Auth.AdditionalScopes, v1.AuthScopeNewWorkConns)
 		}
-		cfg.Transport.HeartbeatTimeout = 90
+		cfg.Transport.HeartbeatTimeout = hbTimeout
 		cfg.UserConnTimeout = 1 // a user connection that finds the pool empty gives up after 1 s
 		cfg.Complete()
 		svr, err := server.NewService(cfg)
@@ -260,6 +288,8 @@ func (st *peerState) start(method string, hb, wc bool, extra ...string) {
 		st.owner = map[string]string{}
 		st.lastPing = map[string]int64{}
 		st.lp = map[string]int{}
+		st.legit = map[string]int{}
+		st.noMux = noMux
 		st.tports = map[string]int{}
 		st.toks = map[string]string{}
 		st.clock = clock
@@ -296,6 +326,10 @@ func (st *peerState) newConnector(tr string) (client.Connector, error) {
 		cc.Transport.TLS.Enable = lo.ToPtr(true)
 	case "ws":
 		cc.Transport.Protocol = "websocket"
+	case "wst":
+		// the websocket listener with frp's TLS inside the websocket stream
+		cc.Transport.Protocol = "websocket"
+		cc.Transport.TLS.Enable = lo.ToPtr(true)
 	case "kcp":
 		cc.Transport.Protocol = "kcp"
 		cc.ServerPort = st.kcpPort
@@ -304,6 +338,9 @@ func (st *peerState) newConnector(tr string) (client.Connector, error) {
 		cc.ServerPort = st.quicPort
 	default:
 		return nil, fmt.Errorf("unknown transport %s", tr)
+	}
+	if st.noMux {
+		cc.Transport.TCPMux = lo.ToPtr(false)
 	}
 	cc.Complete()
 	cc.Transport.ProxyURL = ""
@@ -385,6 +422,7 @@ func (st *peerState) sessions() []server.VerifAuthSession {
 		if !seen[id] {
 			delete(st.lastPing, id)
 			delete(st.lp, id)
+			delete(st.legit, id)
 		}
 	}
 	return ss
@@ -460,6 +498,7 @@ func (st *peerState) doLogin(cid, tr, rid string, ts int64, key string, aap bool
 	if s, ok := st.session(resp.RunID); ok {
 		st.lastPing[resp.RunID] = s.LastPing
 		st.lp[resp.RunID] = 0
+		st.legit[resp.RunID] = 0
 	}
 	return "ok:" + hx(resp.RunID)
 }
@@ -544,6 +583,7 @@ func (st *peerState) doPing(cid string, ts int64, key string) string {
 	}
 	st.sessions()
 	lpBefore, had := st.lp[pc.runID]
+	lpAll := lpBefore
 	if st.owner[pc.runID] != cid {
 		had = false
 	}
@@ -568,6 +608,10 @@ func (st *peerState) doPing(cid string, ts int64, key string) string {
 		moved := "same"
 		if had && st.lp[pc.runID] != lpBefore {
 			moved = "moved"
+		}
+		if _, live := st.lp[pc.runID]; live {
+			// what moved while a heartbeat on this very control connection was being answered is the heartbeat's
+			st.legit[pc.runID] += st.lp[pc.runID] - lpAll
 		}
 		if pong.Error != "" {
 			return "pong:err:" + moved
@@ -648,7 +692,32 @@ func (st *peerState) doUconn(name string) string {
 	return "e1:" + chosen
 }
 
+// did Control.lastPing of some session move without an accepted-or-not heartbeat on its control connection that
+// accounts for it?  (then resynchronise, so that one unexplained move is reported once)
+func (st *peerState) livenessMoved() bool {
+	if st.svr == nil {
+		return false
+	}
+	st.sessions()
+	moved := false
+	for rid, n := range st.lp {
+		if st.legit[rid] != n {
+			moved = true
+			st.legit[rid] = n
+		}
+	}
+	return moved
+}
+
 func peerExec(tok []string) string {
+	r := peerExec1(tok)
+	if tok[0] != "reset" && peerSt.livenessMoved() {
+		r += "!lp"
+	}
+	return r
+}
+
+func peerExec1(tok []string) string {
 	st := peerSt
 	if tok[0] == "reset" {
 		st.start(tok[1], peerB(tok[2]), peerB(tok[3]), tok[4:]...)
@@ -700,7 +769,7 @@ func peerExec(tok []string) string {
 			return "dialerr"
 		}
 		defer c.Close()
-		good := peerKey(peerToken, 5)
+		good := peerKey(st.token, 5)
 		var m any
 		var rawb []byte
 		frame := func(t byte, n int64, body string) []byte {
@@ -818,6 +887,71 @@ func peerExec(tok []string) string {
 			return "ok"
 		}
 
+	case "cproxy":
+		cid, name := tok[1], unhx(tok[2])
+		pc := st.conns[cid]
+		if pc == nil || !pc.established {
+			return "gone"
+		}
+		if err := msg.WriteMsg(pc.rw, &msg.CloseProxy{ProxyName: name}); err != nil {
+			pc.established = false
+			return "gone"
+		}
+		// CloseProxy is not answered.  Messages of one control connection are handled in order, so the error reply to a
+		// NewProxy of a type frps does not know tells that the CloseProxy has been dealt with.
+		sync := "sync-" + cid
+		if err := msg.WriteMsg(pc.rw, &msg.NewProxy{ProxyName: sync, ProxyType: "no-such-type"}); err != nil {
+			pc.established = false
+			return "gone"
+		}
+		for {
+			m, err := peerRead(pc.rw, pc.c)
+			if err != nil {
+				pc.established = false
+				if peerIsTimeout(err) {
+					return "timeout"
+				}
+				return "gone"
+			}
+			r, ok := m.(*msg.NewProxyResp)
+			if !ok || r.ProxyName != sync {
+				continue
+			}
+			if r.Error == "" {
+				return "unexpected"
+			}
+			return "ok"
+		}
+
+	case "wait":
+		time.Sleep(time.Duration(atoi(tok[1])) * time.Millisecond)
+		return "-"
+
+	case "alive":
+		cid := tok[1]
+		rid, ok := st.ridOf[cid]
+		if !ok || st.owner[rid] != cid {
+			return "dead"
+		}
+		deadline := time.Now().Add(600 * time.Millisecond)
+		for {
+			if _, live := st.session(rid); !live {
+				delete(st.owner, rid)
+				return "dead"
+			}
+			if tok[2] != "dead" || time.Now().After(deadline) {
+				return "alive"
+			}
+			time.Sleep(500 * time.Microsecond)
+		}
+
+	case "authkey":
+		return hx(util.GetAuthKey(unhx(tok[1]), int64(atoi(tok[2]))))
+
+	case "authkey2":
+		ts := int64(atoi(tok[3]))
+		return hx(util.GetAuthKey(unhx(tok[1]), ts)) + ":" + hx(util.GetAuthKey(unhx(tok[2]), ts))
+
 	case "drop":
 		cid := tok[1]
 		pc := st.conns[cid]
@@ -898,6 +1032,8 @@ type peerGen struct {
 	hb, wc           bool // scopes of the running episode (classic and siege episodes)
 	uproxies         []string
 	tokSeq           int
+	token            string // the token frps of this episode is configured with
+	noMux            bool   // transport.tcpMux off in this episode
 	pub              string // O / C episodes: the keys the provider publishes now
 	toks             []peerGenTok // O / C episodes: minted tokens that can be replayed
 }
@@ -906,14 +1042,20 @@ func (g *peerGen) cid() string { g.next++; return "c" + strconv.Itoa(g.next) }
 
 func (g *peerGen) tr() string {
 	r := g.rng.Intn(100)
+	if g.noMux && r >= 66 && r < 75 {
+		// without yamux a kcp connection has no close notification: the harness could not see refusals
+		return "tcp"
+	}
 	switch {
 	case r < 40:
 		return "tcp"
-	case r < 52:
+	case r < 50:
 		return "tls"
-	case r < 64:
+	case r < 60:
 		return "ws"
-	case r < 74:
+	case r < 66:
+		return "wst"
+	case r < 75:
 		return "kcp"
 	case r < 84:
 		return "quic"
@@ -930,13 +1072,130 @@ func (g *peerGen) netTr() string {
 	}
 }
 
+// timestamps of all magnitudes (the key is md5(token ++ decimal(ts)): 1 … 20 characters, with and without sign)
 func (g *peerGen) ts() int64 {
+	if g.rng.Intn(3) == 0 {
+		return pick(g.rng, []int64{-1, 9, 10, 99, 100, 4096, 999999999, 1 << 31, 1<<32 - 1, 1 << 32, 10000000000, -(1 << 31),
+			-1700000000, 1<<53 + 1, 9223372036854775806, -9223372036854775807, -9223372036854775808})
+	}
 	return pick(g.rng, []int64{0, 1, 5, 12, -3, 1700000000, 1893456000, 9223372036854775807})
+}
+
+// ------------------------------------------------------------------ tokens
+//
+// The configured token is a configuration input of the property ("for all configurations"): every length from 0 to 200
+// bytes with the MD5 block boundaries (55/56, 63/64/65, 119/120, 127/128) over-represented; printable ASCII, tokens
+// ending in digits (token and timestamp are concatenated without a separator), multi-byte UTF-8, arbitrary bytes.
+
+var peerTokenLens = []int{0, 1, 2, 7, 8, 15, 16, 17, 31, 32, 33, 54, 55, 56, 57, 62, 63, 64, 65, 66, 100, 118, 119, 120, 121,
+	126, 127, 128, 129, 199, 200}
+
+func peerRandToken(rng *rand.Rand) string {
+	n := pick(rng, peerTokenLens)
+	if rng.Intn(3) == 0 {
+		n = rng.Intn(201)
+	}
+	var b []byte
+	switch rng.Intn(6) {
+	case 5: // white space at the ends and inside (space, tab, newline, CR): nothing may trim or normalise a token
+		const ws = " \t\n\r"
+		for len(b) < n {
+			if len(b) < 2 || len(b) >= n-2 || rng.Intn(6) == 0 {
+				b = append(b, ws[rng.Intn(len(ws))])
+			} else {
+				b = append(b, "abcXYZ019"[rng.Intn(9)])
+			}
+		}
+	case 0: // multi-byte UTF-8 (2-, 3- and 4-byte sequences), cut to n bytes at a rune boundary where possible
+		runes := []rune("äßéñ中文字𝄞😀€λжЖ")
+		for len(b) < n {
+			r := string(runes[rng.Intn(len(runes))])
+			if len(b)+len(r) > n {
+				r = "z"
+			}
+			b = append(b, r...)
+		}
+	case 1: // any bytes
+		b = make([]byte, n)
+		for i := range b {
+			b[i] = byte(rng.Intn(256))
+		}
+	case 2: // ends in digits
+		for len(b) < n {
+			b = append(b, "0123456789"[rng.Intn(10)])
+		}
+		if n > 3 {
+			copy(b, "tok")
+		}
+	default:
+		const abc = "abcdefghijklmnopqrstuvwxyzABCDEFGHIJKLMNOPQRSTUVWXYZ0123456789-_.!"
+		for len(b) < n {
+			b = append(b, abc[rng.Intn(len(abc))])
+		}
+	}
+	return string(b)
+}
+
+// a token that is NOT tok but close to it: a proper prefix (cut at 64, 63, one byte short, half, …), an extension, one
+// byte changed (first, last, around the 64th)
+func peerNearToken(rng *rand.Rand, tok string) string {
+	n := len(tok)
+	for try := 0; try < 8; try++ {
+		var o string
+		switch rng.Intn(8) {
+		case 0:
+			if k := pick(rng, []int{64, 63, 65, 32, 16, 128, 56, 55}); k < n {
+				o = tok[:k]
+			}
+		case 1:
+			if n > 0 {
+				o = tok[:n-1]
+			}
+		case 2:
+			if n > 1 {
+				o = tok[:rng.Intn(n)]
+			}
+		case 3:
+			o = tok + pick(rng, []string{"x", "0", "\x00", " ", "\n", "\t", tok})
+			if rng.Intn(4) == 0 {
+				o = pick(rng, []string{" ", "\t", "\n"}) + tok
+			}
+		case 4:
+			if n > 0 {
+				i := pick(rng, []int{0, n - 1, 63, 64, n / 2})
+				if i < n {
+					b := []byte(tok)
+					b[i] ^= byte(1 + rng.Intn(255))
+					o = string(b)
+				}
+			}
+		case 5:
+			// same first 64 bytes, another tail
+			if n > 64 {
+				o = tok[:64] + peerRandToken(rng)
+			}
+		case 6:
+			// another letter case
+			if u := strings.ToUpper(tok); u != tok {
+				o = u
+			} else {
+				o = strings.ToLower(tok)
+			}
+		default:
+			if n > 0 {
+				o = tok[1:]
+			}
+		}
+		if o != tok && (o != "" || n > 0 && rng.Intn(4) == 0) {
+			return o
+		}
+	}
+	return tok + "#"
 }
 
 // returns (key, exp) for the chosen timestamp
 func (g *peerGen) key(ts int64, good bool) (string, string) {
-	exp := peerKey(peerToken, ts)
+	exp := peerKey(g.token, ts)
 	if g.method == "O" {
 		// raw strings sent to the real verifier: none of them is a JWT
 		return pick(g.rng, []string{"", "x", "s:alice", "a.b.c", "e30.e30.", exp}), exp
@@ -950,11 +1209,14 @@ func (g *peerGen) key(ts int64, good bool) (string, string) {
 	if good {
 		return exp, exp
 	}
-	switch g.rng.Intn(8) {
+	switch g.rng.Intn(11) {
 	case 0:
 		return "", exp
 	case 1:
-		return peerKey(peerToken, ts+1), exp // valid for another timestamp (stale / replayed with a new ts)
+		if ts == 9223372036854775807 {
+			return peerKey(g.token, ts-1), exp
+		}
+		return peerKey(g.token, ts+1), exp // valid for another timestamp (stale / replayed with a new ts)
 	case 2:
 		return peerKey("other-token", ts), exp
 	case 3:
@@ -964,9 +1226,57 @@ func (g *peerGen) key(ts int64, good bool) (string, string) {
 	case 5:
 		return exp + "0", exp
 	case 6:
-		return peerKey(peerToken+strconv.FormatInt(ts, 10), ts), exp
+		return peerKey(g.token+strconv.FormatInt(ts, 10), ts), exp
+	case 7:
+		return g.token, exp // the token itself instead of the digest
 	default:
-		return peerToken, exp // the token itself instead of the digest
+		// the key of a token close to the configured one: a prefix, an extension, one byte off
+		return peerKey(peerNearToken(g.rng, g.token), ts), exp
+	}
+}
+
+// the token of the next token-method episode, and whether tcpMux is on
+func (g *peerGen) nextToken() (string, int) {
+	g.token = peerToken
+	if g.rng.Intn(5) > 1 {
+		g.token = peerRandToken(g.rng)
+	}
+	mux := 1
+	if g.rng.Intn(4) == 0 {
+		mux = 0
+	}
+	g.noMux = mux == 0
+	return g.token, mux
+}
+
+// a first message that is not Login / NewWorkConn / NewVisitorConn, or a malformed frame.  Without yamux the 9-byte
+// frames would sit in the port muxer of frps, which reads 10 bytes before it picks a listener: nothing reaches
+// handleConnection until its timeout
+func (g *peerGen) firstOp(tr string) {
+	kind := pick(g.rng, peerFirstKinds)
+	if g.noMux && (tr == "tcp" || tr == "tcpn") && (kind == "biglen" || kind == "neglen" || kind == "emptybody") {
+		kind = "badjson"
+	}
+	g.op(fmt.Sprintf("first %s %s %s", g.cid(), tr, kind))
+}
+
+// util.GetAuthKey itself: a token (of the classes above) and a timestamp; two tokens close to one another
+func (g *peerGen) authkeys(k int) {
+	for ; k > 0; k-- {
+		tok := peerRandToken(g.rng)
+		if g.rng.Intn(4) == 0 {
+			tok = g.token
+		}
+		ts := g.ts()
+		if g.rng.Intn(2) == 0 {
+			g.op(fmt.Sprintf("authkey %s %d %s", hx(tok), ts, hx(peerKey(tok, ts))))
+			continue
+		}
+		other := peerNearToken(g.rng, tok)
+		if g.rng.Intn(8) == 0 {
+			other = tok
+		}
+		g.op(fmt.Sprintf("authkey2 %s %s %d", hx(tok), hx(other), ts))
 	}
 }
 
@@ -1037,7 +1347,7 @@ func (g *peerGen) refusedAttempt() {
 			g.work(true, g.tr(), hx(pick(g.rng, []string{"nope", "", "zz"})))
 		}
 	case 3:
-		g.op(fmt.Sprintf("first %s %s %s", g.cid(), g.tr(), pick(g.rng, peerFirstKinds)))
+		g.firstOp(g.tr())
 	default:
 		g.op(fmt.Sprintf("visit %s %s %s %s", g.cid(), g.tr(), g.ridref(), hx(pick(g.rng, []string{"p1", "p2", "ghost"}))))
 	}
@@ -1050,8 +1360,78 @@ func (g *peerGen) someLogin() string {
 	return g.logins[len(g.logins)-1-g.rng.Intn(min(len(g.logins), 5))]
 }
 
+// "heartbeats without a valid key do not keep a session alive", in real time: frps with the HeartBeats scope and a
+// heartbeat timeout of 1 s.  The victim sends valid heartbeats for a while, then only heartbeats with keys that are not
+// accepted, interleaved with other requests on its control connection (CloseProxy, NewProxy that fail or succeed) and
+// work connections naming it, every 500 ms for 3.5 s (more than timeout + 2 s); a bystander keeps sending valid heartbeats.
+// The victim must be gone, the bystander alive.  (The model lets the watchdog fire anywhere between timeout - 0.3 s
+// and timeout + 2 s of model time: the implementation's "gone" decides, relationally.)
+func (g *peerGen) heartbeatScenario() {
+	rng := g.rng
+	g.method = "t"
+	g.logins, g.named, g.uproxies, g.toks = nil, nil, nil, nil
+	tok, mux := g.nextToken()
+	g.hb, g.wc = true, rng.Intn(2) == 0
+	wc := 0
+	if g.wc {
+		wc = 1
+	}
+	g.op(fmt.Sprintf("reset t 1 %d %s %d 1", wc, hx(tok), mux))
+	victim, other := g.cid(), g.cid()
+	for _, c := range []string{victim, other} {
+		ts := g.ts()
+		key, exp := g.key(ts, true)
+		rid := ""
+		if c == victim {
+			rid = "v1"
+		}
+		g.op(fmt.Sprintf("login %s %s %s %d %s %s 0 1", c, pick(rng, []string{"tcp", "tls", "ws"}), hx(rid), ts, hx(key), hx(exp)))
+	}
+	g.op(fmt.Sprintf("nproxy %s %s", victim, hx("p1")))
+	ping := func(c string, good bool) {
+		ts := g.ts()
+		key, exp := g.key(ts, good)
+		g.op(fmt.Sprintf("ping %s %d %s %s", c, ts, hx(key), hx(exp)))
+	}
+	for i := 0; i < 2; i++ {
+		g.op("wait 250")
+		ping(victim, true)
+		ping(other, true)
+	}
+	g.op(fmt.Sprintf("alive %s alive", victim))
+	// from here on the victim has no valid key any more
+	for i := 0; i < 7; i++ {
+		g.op("wait 500")
+		ping(other, true)
+		for j := 1 + rng.Intn(2); j > 0; j-- {
+			switch rng.Intn(5) {
+			case 0, 1:
+				ping(victim, false)
+			case 2:
+				g.op(fmt.Sprintf("cproxy %s %s", victim, hx(pick(rng, []string{"ghost", "p1", "p2"}))))
+			case 3:
+				g.op(fmt.Sprintf("nproxy %s %s", victim, hx(pick(rng, []string{"p1", "p2"}))))
+			default:
+				if g.wc {
+					ts := g.ts()
+					key, exp := g.key(ts, false)
+					g.op(fmt.Sprintf("work %s tcp %s %d %s %s", g.cid(), hx("v1"), ts, hx(key), hx(exp)))
+				} else {
+					ping(victim, false)
+				}
+			}
+		}
+	}
+	g.op(fmt.Sprintf("alive %s dead", victim))
+	g.op(fmt.Sprintf("alive %s alive", other))
+	g.dump()
+}
+
 func peerGenRun(rng *rand.Rand, n int, emit func(string)) {
 	g := &peerGen{rng: rng, emit: emit}
+	if n >= 200 {
+		g.heartbeatScenario()
+	}
 	cfgNo := rng.Intn(peerEpisodeKinds)
 	for g.n < n {
 		// one episode per configuration: every (method, scope subset) in turn; 2 of 16 episodes run the real
@@ -1085,7 +1465,14 @@ func peerGenRun(rng *rand.Rand, n int, emit func(string)) {
 			hb, wc = (k>>1)&1, 1
 		}
 		g.hb, g.wc = hb == 1, wc == 1
-		g.op(fmt.Sprintf("reset %s %d %d", g.method, hb, wc))
+		if g.method == "t" {
+			tok, mux := g.nextToken()
+			g.op(fmt.Sprintf("reset t %d %d %s %d", hb, wc, hx(tok), mux))
+			g.authkeys(8)
+		} else {
+			g.token, g.noMux = "", false
+			g.op(fmt.Sprintf("reset %s %d %d", g.method, hb, wc))
+		}
 		g.login(true, "tcp")
 		g.dump()
 		for k := 0; k < 45 && g.n < n; k++ {
@@ -1118,7 +1505,7 @@ const (
 // well-formed token of a subject that never logged in
 func (g *peerGen) badPostKey(ts int64) (string, string) {
 	if g.method == "o" && g.rng.Intn(3) == 0 {
-		return "s:" + pick(g.rng, []string{"mallory", "dave", "Alice"}), peerKey(peerToken, ts)
+		return "s:" + pick(g.rng, []string{"mallory", "dave", "Alice"}), peerKey(g.token, ts)
 	}
 	return g.key(ts, false)
 }
@@ -1206,7 +1593,7 @@ func (g *peerGen) siege(kind int, victim, vrid string, count int) {
 			key, exp := g.badPostKey(ts)
 			g.op(fmt.Sprintf("ping %s %d %s %s", victim, ts, hx(key), hx(exp)))
 		default:
-			g.op(fmt.Sprintf("first %s %s %s", g.cid(), tr(), pick(rng, peerFirstKinds)))
+			g.firstOp(tr())
 		}
 	}
 }
@@ -1242,7 +1629,13 @@ func (g *peerGen) siegeEpisode(n int, method string) {
 		}
 		return 0
 	}
-	g.op(fmt.Sprintf("reset %s %d %d", method, b(g.hb), b(g.wc)))
+	if method == "t" {
+		tok, mux := g.nextToken()
+		g.op(fmt.Sprintf("reset t %d %d %s %d", b(g.hb), b(g.wc), hx(tok), mux))
+	} else {
+		g.token, g.noMux = "", false
+		g.op(fmt.Sprintf("reset %s %d %d", method, b(g.hb), b(g.wc)))
+	}
 	// the victim: a run id of its own choosing (so that refused logins can name it), one pooled work connection,
 	// a tcp proxy; next to it a bystander session
 	victim := g.cid()
@@ -1287,13 +1680,18 @@ func (g *peerGen) classicStep() {
 	case r < 68:
 		g.work(rng.Intn(2) == 0, g.tr(), g.ridref())
 	case r < 74:
-		g.op(fmt.Sprintf("first %s %s %s", g.cid(), g.tr(), pick(rng, peerFirstKinds)))
+		g.firstOp(g.tr())
 	case r < 78:
 		g.op(fmt.Sprintf("visit %s %s %s %s", g.cid(), g.tr(), g.ridref(), hx(pick(rng, []string{"p1", "p2", "ghost"}))))
-	case r < 85:
+	case r < 83:
 		g.op(fmt.Sprintf("nproxy %s %s", g.someLogin(), hx(pick(rng, []string{"p1", "p2", "p3", "p4"}))))
+	case r < 85:
+		// CloseProxy: a registered name, a name of another session, a name nobody holds
+		g.op(fmt.Sprintf("cproxy %s %s", g.someLogin(), hx(pick(rng, []string{"p1", "p2", "p3", "ghost", "u1"}))))
 	case r < 88:
 		g.op("drop " + g.someLogin())
+	case r < 89 && rng.Intn(2) == 0:
+		g.authkeys(2)
 	case r < 89:
 		g.op("raw " + pick(rng, []string{
 			hex.EncodeToString([]byte("HELLO WORLD, THIS IS NOT YAMUX")),
